@@ -26,6 +26,20 @@ Proof.
     (split; [reflexivity | split; intro H; first [congruence | eexists; reflexivity]]).
 Qed.
 
+(* what the constructor leaves behind: the shadow it was given (Config::default() in the code) is untouched, the
+   chip's registers are untouched by the I2C and 4-wire constructors, and the 3-wire constructor has written
+   exactly IF_CONF <- 0x01 - whether or not the id matched (the code checks the id after that write) *)
+Theorem c18_state_after : forall c d ch,
+  a_shadow (sem (ctor_prog c) d ch []) = d
+  /\ a_chip (sem (ctor_prog c) d ch []) = match c with C_spi3 => chip_write 124 1 ch | _ => ch end.
+Proof.
+  intros c d ch.
+  assert (Hcr : forall x, chip_read ChipId_ADDR 1 x = ([reg_out x 0], x)) by reflexivity.
+  destruct c; unfold ctor_prog, check_id; cbn [bind read_register write_register sem];
+    repeat (rewrite Hcr; cbn [fst snd]); cbn [nth app];
+    match goal with |- context [N.eqb ?x 144] => destruct (N.eqb x 144) end; cbn [a_shadow a_chip sem]; split; reflexivity.
+Qed.
+
 (* a freshly constructed driver assumes precisely the datasheet reset value of every configuration register *)
 Theorem c18_defaults_are_datasheet :
   forallb (fun p => existsb (fun r => match r with (a, rst, _) => N.eqb a (fst p) && N.eqb rst (snd p) end) ds_regs) (Config_dump Config_default) = true
